@@ -149,17 +149,20 @@ fn parse_data_section(
                 None
             };
 
-            let windows = pos
-                .stream_win
-                .iter()
-                .map(|win| {
-                    Ok(
-                        all_consuming(terminated(WindowParser::parse_window_row, ParseTarget::sp))
-                            .parse(&input[win.0..=win.1])?
-                            .1,
-                    )
-                })
-                .collect::<Result<_, ModelParseError>>()?;
+            let windows =
+                pos.stream_win
+                    .iter()
+                    .map(|win| {
+                        Ok(all_consuming(terminated(
+                            WindowParser::parse_window_row,
+                            ParseTarget::sp,
+                        ))
+                        .parse(slice_inclusive(input, *win).ok_or_else(|| {
+                            ModelParseError::NomError("Window position is out of range".to_string())
+                        })?)?
+                        .1)
+                    })
+                    .collect::<Result<_, ModelParseError>>()?;
 
             Ok(StreamModels::new(
                 stream_data.clone().into(),
@@ -183,7 +186,21 @@ where
 {
     use nom::combinator::all_consuming;
 
-    move |input: &'a [u8]| all_consuming(f).parse(&input[range.0..range.1 + 1])
+    move |input: &'a [u8]| {
+        // `range` comes from the file header and must not be trusted.
+        let Some(section) = slice_inclusive(input, range) else {
+            return Err(nom::Err::Failure(F::Error::from_error_kind(
+                input,
+                nom::error::ErrorKind::Eof,
+            )));
+        };
+        all_consuming(f).parse(section)
+    }
+}
+
+/// Returns `input[range.0..=range.1]`, or [`None`] if the range does not lie inside `input`.
+fn slice_inclusive(input: &[u8], range: (usize, usize)) -> Option<&[u8]> {
+    input.get(range.0..range.1.checked_add(1)?)
 }
 
 #[cfg(test)]
